@@ -1,3 +1,4 @@
+import os
 import sys
 
 import setuptools
@@ -9,6 +10,11 @@ if sys.platform == "win32":
 else:
     extra_compile_args = ["-std=c99"]
     libraries = ["crypto"]
+
+# verification hooks (off by default): AIOQUIC_VERIF=1 compiles the helpers with
+# the guarded instrumentation in src/aioquic/_crypto.c
+if os.environ.get("AIOQUIC_VERIF"):
+    extra_compile_args = extra_compile_args + ["-DAIOQUIC_VERIF=1"]
 
 
 class bdist_wheel_abi3(bdist_wheel):
